@@ -44,6 +44,11 @@ impl U256 {
     }
 
     pub fn checked_shl(&self, other: &u64) -> Option<U256> {
+        // A non-zero value shifted by 256 or more bits never fits; decide that without
+        // materialising the shifted number, whose size is proportional to `other`.
+        if *other >= 256 {
+            return self.0.is_zero().then(|| self.clone());
+        }
         let r = (&self.0).shl(other);
         (r.bits() <= 256).then_some(Self(r))
     }
